@@ -12,6 +12,13 @@ package bplus
 immutable BPlusTreeStore.db by NewBPlusTreeStore
 immutable BPlusKVPairReader.prefix by NewBPlusKVPairReader
 
+// The order the B-tree is given is the byte order of the stored keys (the same order
+// bytes.Compare and the scan bounds use): everything said about "in key order" rests on it.
+func KVItem.Less
+  props C14
+  requires istype(b, KVItem)
+  ensures C14/tree-order-is-byte-order: result == !lexle(bytes(dyn(b, KVItem).Key), bytes(p.Key))
+
 // The write path: every mutation of the batch reaches the tree under the key "table prefix
 // byte + user key" with the value it was given. The tree keeps the very slices it is handed
 // (insKeys/insVals record them), so the claim is about what those slices hold WHEN MUTATE
